@@ -2,6 +2,33 @@
    Statements only (proofs in ClientFlowProofs.v), Print Assumptions, non-vacuity Examples. *)
 From TeosModel Require Import Base Db Client ClientFlow ClientFlowProofs.
 
+(* In every reachable state (ALL operation sequences, no guard) at most one retry task is alive per tower, and a
+   tower with a live task has a Running retrier; the manager starts a retrier only when it is Stopped
+   (sweep_started_stopped). *)
+Theorem C13_single_retrier ops :
+  let s := frun f_init ops in
+  NoDup (f_tasks s) /\ (forall t, In t (f_tasks s) -> rstat s t = Some RRunning).
+Proof. exact (single_retrier ops). Qed.
+Print Assumptions C13_single_retrier.
+
+Theorem C13_started_only_when_stopped elapsed keys s started woke s' started' woke' o :
+  sweep s keys elapsed started woke = (s', started', woke', o) ->
+  (forall t, In t started -> In t keys -> False) -> NoDup keys ->
+  forall t, In t started' -> In t started \/ (In t keys /\ exists r, aget (f_mgr s) t = Some r /\ should_start r = true).
+Proof. exact (sweep_started_stopped elapsed keys s started woke s' started' woke' o). Qed.
+Print Assumptions C13_started_only_when_stopped.
+
+(* retrytower is accepted exactly in the documented states: the tower is known and (its retrier is idle, or it has
+   no retrier and its status is unreachable / subscription error); a refusal changes nothing, an acceptance queues
+   exactly one message for the manager (None for an idle retrier, the stale pending set otherwise) *)
+Theorem C13_manual_retry_gate s t :
+  (snd (f_manual_retry s t) = OOk <-> retry_allowed s t = true) /\
+  (retry_allowed s t = false -> fst (f_manual_retry s t) = s) /\
+  (retry_allowed s t = true -> exists d, fst (f_manual_retry s t) = push_chan s t d /\
+     (d = DNone \/ exists su, aget (c_towers (f_c s)) t = Some su /\ d = DStale (su_pending su))).
+Proof. exact (manual_retry_gate s t). Qed.
+Print Assumptions C13_manual_retry_gate.
+
 (* non-vacuity: an outage, the retrier started by the manager, recovery, delivery *)
 Example C13_delivery_example :
   let s := frun f_init [FRegister 0 (w_good 1); FRevocation 7 [] [(0, AConnErr)]; FManagerTick []; FManagerTick [];
